@@ -42,6 +42,19 @@ def run(ck, prog, ctx):
         ck.ob("DOM", "combine-call/%s/%d" % (b.short, n), ok,
               "%s calls combine(m) %s" % (b.short, "only after `m.is_empty()` returned false" if ok else "without being dominated by the non-empty edge of m.is_empty(): an empty set divides 0 by 0"),
               where=b.where(t.line))
+    from engines import positive_edges
+    pvl = Prov(prog, inline=False, bind_closures=False)
+    for b in sorted({x[0].id for x in sites}):
+        cb = prog.bodies[b]
+        for bi, t in cb.calls():
+            if t.callee.method == "is_empty" and (t.callee.res or "").startswith("matrix::Matrix"):
+                for (sbi, tg) in positive_edges(cb, pvl, bi):
+                    vals = set()
+                    for r in cb.region((sbi, tg)):
+                        for st in cb.blocks[r].stmts:
+                            if st.k == "assign" and st.place.local == 0 and st.place.is_local():
+                                vals.add(st.rv["op"].float_value() if st.rv["k"] == "use" and st.rv["op"].kind == "const" else "non-constant")
+                    ck.ob("DOM", "empty-value/" + cb.short, vals == {0.0}, "%s returns %s for an empty matrix (documented: 0)" % (cb.short, sorted(map(str, vals)) or "nothing"), where=cb.where(t.line))
     me = prog.body("matrix::Matrix::<'a, T>::is_empty")
     if ck.anchor("DOM", "Matrix::is_empty", me):
         at = pv.of_return(me)
